@@ -182,10 +182,11 @@ def _group(ctx, f):
     try:
         for g, m in ((False, False), (True, False), (True, True)):
             def atoms(t, g=g, m=m):
+                # containers, so that truthiness and len() both work
                 if is_gr(t):
-                    return g
+                    return {"G": 1} if g else {}
                 if t == MATCHES:
-                    return m
+                    return ["G"] if m else []
                 raise KeyError(t)
             made = [e for e in creates if all(
                 bool(ev_term(t, atoms)) == o for t, o in lconds(e.stmt))]
@@ -196,7 +197,9 @@ def _group(ctx, f):
                 bad.append({"groups exist": g, "candidates": m,
                             "new group": len(made), "renames": ren})
     except (EvUnknown, KeyError) as e:
-        bad.append(f"cannot evaluate {str(e)[:80]}")
+        raise AnalysisError(
+            f"{f.qual}: a grouping condition is outside the evaluated "
+            f"fragment: {str(e)[:80]}")
     ctx.check(not bad, "C16d-new-group-iff-uncontained",
               f, "a protein founds a new group exactly when no group "
               "exists yet or none contains it", f"deviates: {bad}", node=lp)
@@ -392,7 +395,9 @@ def _read_fasta(ctx, f):
                 if gu != (n == 1) or gs != (n != 1):
                     bad.append((n, gu, gs))
         except (EvUnknown, KeyError) as e:
-            bad.append(("cannot evaluate", str(e)[:80]))
+            raise AnalysisError(
+                f"{f.qual}: the unique/shared condition is outside the "
+                f"evaluated fragment: {str(e)[:80]}")
     ctx.check(ok and not bad, "C16b-unique-shared-split", f,
               "a peptide is unique iff exactly one group contains it (then "
               "mapped to that group), otherwise shared and listing all its "
@@ -485,4 +490,4 @@ def _no_mutation_while_iterating(ctx, funcs):
                       f"loop over {btxt[:40]} does not modify it",
                       f"{btxt} is modified while it is iterated: {bad}",
                       node=lp)
-    ctx.floor("C16c-loops", n, 4)
+    ctx.floor("C16c-loops", n, 2)
